@@ -36,6 +36,12 @@ def run(ctx):
     states = []
     r = ctx.tlc("ForestGen", "ForestGen.cfg", on_emit=states.append, count=False)
     ctx.require_ok(r)
+    if not ctx.quick:
+        cfg2 = open(core.os.path.join(core.SPEC_DIR, "ForestGen.cfg")).read().replace("Obj <- MCObj", "Obj <- MCObj2")
+        more = []
+        ctx.require_ok(ctx.tlc("ForestGen", cfg_text=cfg2, on_emit=more.append, count=False, timeout=1800))
+        ctx.notes["distinct_forests_pool2"] = len(more)
+        states += more
     nrot = 2 if ctx.quick else len(A.TOKSETS) * len(A.ARCHSETS)
     cases = []
     for i, s in enumerate(states):
